@@ -232,7 +232,7 @@ mut("c11_enoent_write_acknowledged", "src/record/partially_serialized.rs", """  
                 _ => Err(e.into()),
             })""", ["C11"], "an append that fails with the one error kind pearl maps to 'file unavailable' (ENOENT / Other) is acknowledged")
 mut("c16_validate_index_no_blob_size_zero", "src/tools/validation.rs", "        header.blob_size()\n    };", "        0\n    };", ["C16"], "validate_index of an index file without its blob compares against size 0")
-mut("c06_unexpected_eof_classification_inverted", "src/error.rs", "            if io_error.kind() == IOErrorKind::UnexpectedEof {", "            if io_error.kind() != IOErrorKind::UnexpectedEof {", ["C06", "C03", "C11"], "EQUIVALENT (dead code): operator mutant from tools/opmut.py in the `anyhow::Error` impl of into_bincode_if_unexpected_eof; its only caller (blob/index/core.rs: read_meta while loading filters from an index file) cannot see a read past the end because the index file size is validated first (coverage: lines never executed)")
+mut("c06_unexpected_eof_classification_inverted", "src/error.rs", "            if io_error.kind() == IOErrorKind::UnexpectedEof {", "            if io_error.kind() != IOErrorKind::UnexpectedEof {", ["C06", "C03", "C11"], "EQUIVALENT (unreachable): operator mutant from tools/opmut.py in the `anyhow::Error` impl of into_bincode_if_unexpected_eof; its only caller (blob/index/core.rs: read_meta while loading filters from an index file) cannot see a read past the end because the index file size is validated first (coverage: lines never executed)")
 # ---- C16
 mut("c16_skip_off_by_header", "src/tools/blob_reader.rs", "            .checked_add(header.data_size())\n            .and_then(|x| x.checked_add(header.meta_size()))", "            .checked_add(header.data_size())", ["C16"], "skip_wrong_record_data forgets the meta size")
 mut("c16_writer_no_revalidate", "src/tools/blob_writer.rs", "            let written_record = reader.read_single_record()?;\n            if record != &written_record {", "            let written_record = reader.read_single_record()?;\n            if false && record != &written_record {", ["C16"], "EQUIVALENT unless the writer is broken: written records not compared")
